@@ -229,6 +229,9 @@ for _c in ("\u00e9", "\u20ac", "\U0001F600"):
         for _k in (1, 2, 3, 5):
             for _i in range(9):
                 PASS_THROUGH.append('"' + "a" * _j + _c * _k + "b" * _i + '"')
+# lower-case hex literals that end in b<digits> / u<digits> after a separator are ordinary Rust (values kept below 2^31 so that the
+# same tokens OUTSIDE the macro compile as i32)
+PASS_THROUGH += ['0x0fff_b000', '0x12_b8', '0x00a0_b123', '0x_b8', '0x0ead_beef', '0x0000_b612_u64', '0xab_u8', '0x1_u64', '0b1010_1010', '0o7_u16', '0xb8', '0xB_u8', '0x0u8', '0xfff_u16', '0xffff_b000_u32', '0x7fff_b256']
 PASS_THROUGH += ['"temp\u00e9rature"', '"\u03b1\u03b2\u03b3\u03b4\u03b5\u03b6\u03b7\u03b8"', '"\u6570\u5024\u30ea\u30c6\u30e9\u30eb"', "'\u00e9'", "'\u20ac'", 'r"\u00e9\u00e9\u00e9\u00e9U8"', 'r#"\u20ac\u20ac\u20ac"#', 'b"abcdefghU8"']
 NESTED_LITS = [
     # (program fragment inside uint!, expected list of (bits, value))
